@@ -7,7 +7,7 @@ from .core import Broken, finish
 
 
 def lattice_check(ctx, gen, judge, harness, libs, rule, nontrivial, assumptions, level="exploration",
-                  sig=lambda b: "op:" + ",".join(sorted(b["fails"])), extra_env=None, harness_args=(),
+                  sig=lambda f, b: f, extra_env=None, harness_args=(),
                   build=(), judge_heap="8g", describe=None):
     if build:
         ctx.build(*build)
@@ -40,8 +40,9 @@ def lattice_check(ctx, gen, judge, harness, libs, rule, nontrivial, assumptions,
     byid = {c["id"]: c for c in cases}
     for b in bad:
         c = byid.get(b["id"])
-        what = "%s: case %s observed %s" % (",".join(b["fails"]), json.dumps(c), json.dumps(b.get("obs"))[:400])
-        ctx.violation(sig(b), what, {"case": c, "fails": b["fails"], "obs": b.get("obs")})
+        for f in b["fails"]:
+            what = "%s: case %s observed %s" % (f, json.dumps(c), json.dumps(b.get("obs"))[:400])
+            ctx.violation(sig(f, b), what, {"case": c, "fails": b["fails"], "obs": b.get("obs")})
     keys = set()
     nt = 0
     for c in cases:
